@@ -800,12 +800,30 @@ pub struct WatchCall {
 	pub steps: Vec<(&'static str, String)>,
 	pub update_bytes: Vec<u8>,
 	pub status: String,
+	/// Some(false): applying the update to a re-read copy of the monitor gave a different monitor
+	pub commutes: Option<bool>,
+	pub update_eq_after_roundtrip: bool,
 }
 
 pub struct WatchTap {
 	pub inner: Arc<SimChainMonitor>,
 	pub log: Mutex<Vec<WatchCall>>,
 	pub enabled: AtomicBool,
+	/// C12: check "update before or after a round trip gives equal monitors" on every update
+	pub check_update_commutes: AtomicBool,
+	pub tools: Mutex<Option<(Arc<SimKeys>, Arc<SimFee>, Arc<SimLogger>)>>,
+}
+
+impl WatchTap {
+	pub fn new(inner: Arc<SimChainMonitor>) -> Self {
+		WatchTap {
+			inner,
+			log: Mutex::new(Vec::new()),
+			enabled: AtomicBool::new(true),
+			check_update_commutes: AtomicBool::new(false),
+			tools: Mutex::new(None),
+		}
+	}
 }
 
 impl chain::Watch<SimSigner> for WatchTap {
@@ -822,6 +840,8 @@ impl chain::Watch<SimSigner> for WatchTap {
 				steps: Vec::new(),
 				update_bytes: Vec::new(),
 				status: format!("{:?}", res),
+				commutes: None,
+				update_eq_after_roundtrip: true,
 			});
 		}
 		res
@@ -829,15 +849,48 @@ impl chain::Watch<SimSigner> for WatchTap {
 	fn update_channel(
 		&self, channel_id: ChannelId, update: &ChannelMonitorUpdate,
 	) -> ChannelMonitorUpdateStatus {
+		let commute_check = self.check_update_commutes.load(Ordering::Relaxed);
+		let before: Option<Vec<u8>> = if commute_check {
+			self.inner.get_monitor(channel_id).ok().map(|m| m.encode())
+		} else {
+			None
+		};
 		let res = self.inner.update_channel(channel_id, update);
+		let mut commutes = None;
+		if let (Some(b), Some((keys, fee, logger))) = (before, self.tools.lock().unwrap().clone()) {
+			if let Ok(after) = self.inner.get_monitor(channel_id) {
+				// only when the live monitor really applied it (not deferred)
+				if after.get_latest_update_id() == update.update_id {
+					use lightning::util::ser::ReadableArgs;
+					if let Ok((_, m2)) = <(lightning::chain::BlockLocator, ChannelMonitor<SimSigner>)>::read(
+						&mut &b[..],
+						(&*keys, &*keys),
+					) {
+						let sink = SimBroadcaster::new();
+						let _ = m2.update_monitor(update, &&sink, &fee, &logger);
+						commutes = Some(after.verif_eq(&m2));
+					}
+				}
+			}
+		}
 		if self.enabled.load(Ordering::Relaxed) {
+			let bytes = update.encode();
+			let eq = {
+				use lightning::util::ser::Readable;
+				match ChannelMonitorUpdate::read(&mut &bytes[..]) {
+					Ok(u2) => u2 == *update,
+					Err(_) => false,
+				}
+			};
 			self.log.lock().unwrap().push(WatchCall {
 				chan: channel_id.0,
 				new_channel: false,
 				update_id: update.update_id,
 				steps: update.verif_steps(),
-				update_bytes: update.encode(),
+				update_bytes: bytes,
 				status: format!("{:?}", res),
+				commutes,
+				update_eq_after_roundtrip: eq,
 			});
 		}
 		res
